@@ -503,7 +503,7 @@ func conclude(p *Property, m *Merged, nsh int, t0 time.Time) int {
 	for _, k := range keys {
 		vs := byKey[k]
 		if kf, ok := known[k]; ok {
-			fmt.Printf("KNOWN-FINDING: property=%s %s [%s; %d occurrence(s) this run, e.g. %s]\n", p.ID, kf.What, k, len(vs), oneLine(vs[0].Input, 120))
+			fmt.Printf("KNOWN-FINDING: property=%s %s [%s; %d occurrence(s) this run, e.g. %s]\n", p.ID, kf.What, k, max(int64(len(vs)), m.Counts["violations_by_key."+k]), oneLine(vs[0].Input, 120))
 			knownSeen = append(knownSeen, k)
 			continue
 		}
@@ -524,7 +524,7 @@ func conclude(p *Property, m *Merged, nsh int, t0 time.Time) int {
 			Replay: fmt.Sprintf("./check %s --replay %s", p.ID, rp)}
 		b, _ := json.MarshalIndent(rf, "", " ")
 		os.WriteFile(rp, b, 0o644)
-		fmt.Printf("  witness[%s] (%d occurrence(s)): %s\n    input: %s\n", k, len(vs), oneLine(v.What, 300), oneLine(v.Input, 400))
+		fmt.Printf("  witness[%s] (%d occurrence(s)): %s\n    input: %s\n", k, m.Counts["violations_by_key."+k], oneLine(v.What, 300), oneLine(v.Input, 400))
 		fmt.Printf("VIOLATION property=%s replay=%s\n", p.ID, rp)
 	}
 	// evidence
